@@ -16,9 +16,9 @@ use std::collections::{BTreeMap, BTreeSet};
 pub const META: PropMeta = PropMeta {
     id: "C05",
     level: "exploration",
-    rule: "cases = source programs of generic struct/enum definitions in nested modules (1..3 parameters, skipped parameters, PhantomData fields, Box/Cow/VecDeque/compact normalisations, recursion, all prelude types) with 1..6 instantiations per definition, restricted to coincidence-free instantiation sets (decided exactly from the source; rejected sets are counted); each program is pushed through the scale-info model under 3 different registration orders of its instantiations. Oracle: for every definition the expected item is computed from the SOURCE AST (generic over the non-skipped parameters in declaration order, named _i by declared position; every field type with parameters in the same positions; Box kept only at field level; Cow and VecDeque erased; compact as attribute; PhantomData fields and tuple members dropped and replaced by one trailing marker naming exactly the otherwise unused parameters; variant indices) and compared structurally with the parsed emitted item; all orders must emit the same item. non-trivial = a generic definition with >= 2 instantiations whose parameters occur at nested positions; distinct by program hash.",
+    rule: "cases = source programs of generic struct/enum definitions in nested modules (1..3 parameters, skipped parameters, PhantomData fields, Box/Cow/VecDeque/compact normalisations, recursion, all prelude types) with 1..6 instantiations per definition, restricted to coincidence-free instantiation sets (decided exactly from the source; rejected sets are counted); each program is pushed through the scale-info model under 3 different registration orders of its instantiations. Oracle: for every definition the expected item is computed from the SOURCE AST (generic over the non-skipped parameters in declaration order, named _i by declared position; every field type with parameters in the same positions; Box kept only at field level; Cow and VecDeque erased; compact as attribute; PhantomData fields and tuple members dropped and replaced by one trailing marker naming exactly the otherwise unused parameters; variant indices) and compared structurally with the parsed emitted item; all orders must emit the same item, and so must the route through ensure_unique_type_paths followed by generation (taken for the last order). non-trivial = a generic definition with >= 2 instantiations whose parameters occur at nested positions; distinct by program hash.",
     assumptions: &["the scale-info model reproduces real scale-info (monitored by the corpus check)", "definitions using associated types are outside this property's programs (their instantiations are different shapes by construction)"],
-    required_counters: &["definitions_compared", "generic_definitions_compared", "nested_parameter_positions", "direct_parameter_positions", "markers_expected", "orders_compared", "hook[rtp:param-match]"],
+    required_counters: &["definitions_compared", "generic_definitions_compared", "nested_parameter_positions", "direct_parameter_positions", "markers_expected", "orders_compared", "dedup_then_generate_routes", "hook[rtp:param-match]"],
     floor: (500, 10_000),
     shards: (16, 16),
 };
@@ -276,7 +276,22 @@ pub fn judge(ctx: &mut Ctx, prog: &Program, orders: &[Vec<Ty>], d: &SDesc, repla
     let mut per_order: Vec<BTreeMap<Vec<String>, String>> = Vec::new();
     let mut nontrivial = false;
     for (oi, roots) in orders.iter().enumerate() {
-        let out = sim::simulate_roots(prog, roots);
+        let mut out = sim::simulate_roots(prog, roots);
+        if oi > 0 && oi + 1 == orders.len() {
+            // the other route to the same module: de-duplicate paths first (a no-op on these
+            // programs: every path is carried by instantiations of one definition), then generate
+            match guard(|| scale_typegen::utils::ensure_unique_type_paths(&mut out.registry)) {
+                Ok(Ok(())) => ctx.count("dedup_then_generate_routes", 1),
+                Ok(Err(e)) => {
+                    ctx.violation("C05:dedup-route-fails", format!("ensure_unique_type_paths fails on a coincidence-free program: {e}"), replay());
+                    return false;
+                }
+                Err(p) => {
+                    ctx.violation(format!("C05:dedup-route-panics:{}", p.signature()), p.msg.clone(), replay());
+                    return false;
+                }
+            }
+        }
         let (gen, events) = generate_model(&out.registry, d);
         tally(&events, &mut ctx.res.counters);
         let gen = match gen {
